@@ -277,28 +277,43 @@ fn json_string_lit(b: &mut Builder, s: &str) -> String {
 }
 
 fn rfc3339(b: &mut Builder, ns: i128) -> String {
-    // render an instant in one of several RFC 3339 spellings, all denoting exactly `ns`
+    rfc3339_with(b, ns, true)
+}
+
+/// Render an instant in one of the RFC 3339 spellings that denote exactly `ns`: UTC as "Z" or "+00:00",
+/// or local time with a numeric offset of either sign, whole hours or not (-03:30, +05:45, -09:30,
+/// +14:00, -23:59, ...). With `loose` also the spellings RFC 3339 merely tolerates (lower-case t and z,
+/// a space for the T, the unknown-offset form -00:00).
+pub fn rfc3339_with(b: &mut Builder, ns: i128, loose: bool) -> String {
     let ts = jiff::Timestamp::from_nanosecond(ns).unwrap();
     let base = ts.to_string(); // e.g. 2026-09-21T10:00:00.123Z
-    match b.rng.below(4) {
-        0 => base,
+    let mut out = match b.rng.below(8) {
+        0 => base.clone(),
         1 => base.replace('Z', "+00:00"),
-        2 => {
-            // shift to a +02:30 offset: same instant
-            let shifted = jiff::Timestamp::from_nanosecond(ns + (2 * 3600 + 30 * 60) * 1_000_000_000);
-            match shifted {
-                Ok(s) => s.to_string().replace('Z', "+02:30"),
-                Err(_) => base,
+        _ => {
+            let neg = b.rng.bool();
+            let hh = *b.rng.pick(&[0i128, 0, 1, 2, 3, 5, 7, 9, 11, 12, 13, 14, 23]);
+            let mm = *b.rng.pick(&[0i128, 0, 15, 30, 30, 45, 59, 1]);
+            let off = (hh * 3600 + mm * 60) * if neg { -1 } else { 1 };
+            if off == 0 && neg && !loose {
+                base.clone()
+            } else {
+                match jiff::Timestamp::from_nanosecond(ns + off * 1_000_000_000) {
+                    Ok(s) => s.to_string().replace('Z', &format!("{}{hh:02}:{mm:02}", if neg { '-' } else { '+' })),
+                    Err(_) => base.clone(),
+                }
             }
         }
-        _ => {
-            let shifted = jiff::Timestamp::from_nanosecond(ns - 7 * 3600 * 1_000_000_000);
-            match shifted {
-                Ok(s) => s.to_string().replace('Z', "-07:00"),
-                Err(_) => base,
-            }
+    };
+    if loose {
+        match b.rng.below(8) {
+            0 => out = out.replace('T', "t"),
+            1 => out = out.replace('Z', "z"),
+            2 => out = out.replace('T', " "),
+            _ => {}
         }
     }
+    out
 }
 
 impl Scenario for C14 {
@@ -418,7 +433,7 @@ impl Scenario for C14 {
             for name in ["exp", "nbf", "iat"] {
                 if b.rng.bool() {
                     let t = b.timestamp();
-                    let s = jiff::Timestamp::from_nanosecond(t.0).map(|x| x.to_string()).unwrap_or_else(|_| "1970-01-01T00:00:00Z".into());
+                    let s = rfc3339_with(&mut b, t.0, false);
                     members.push(format!("\"{name}\":\"{s}\""));
                 }
             }
